@@ -885,6 +885,14 @@ def string_set_chains(src, log):
             break
         src = src[:m.start()] + "verif_parts_set(&%s)" % m.group(1) + src[m.end():]
         log.append({"rule": "R6", "shape": "split(:::).map(to_string).collect()", "receiver": m.group(1)})
+    # SET.iter().next() -> verif_set_first(&SET)   (the shim is verified, its body is this expression)
+    pat = re.compile(r'(\bself\.jobs_ready_to_run)\s*\.iter\(\)\s*\.next\(\)')
+    while True:
+        m = pat.search(src)
+        if not m:
+            break
+        src = src[:m.start()] + "verif_set_first(&%s)" % m.group(1) + src[m.end():]
+        log.append({"rule": "R6", "shape": "set.iter().next()", "receiver": m.group(1)})
     pat = re.compile(r'(\b[\w\.]+)\s*\.intersection\(\s*&\s*([\w\.]+)\s*\)\s*\.count\(\)')
     while True:
         m = pat.search(src)
